@@ -42,6 +42,14 @@ func init() {
 			"cp/s>0", "cp/m=1", "cp/m>=64", "cp/key-shorter-than-prefix", "cp/all-subranges", "fd/first-diff-bit>=2048", "fd/first-diff-bit>=32768", "fd/keys>2^18"},
 		Families: func(c *mon.Config) []mon.Family {
 			return []mon.Family{
+				{Name: "cold-start", N: 1, Serial: true, Run: func(w *mon.W, _ int) {
+					for _, l := range [][]string{{""}, {"", "\x00"}, {"\xff", "\xff\xff"}, {"", ""}, {"a"}} {
+						if !c16CheckList(w, l) {
+							return
+						}
+					}
+					w.Bucket("cold-start")
+				}},
 				{Name: "fd-small-universe", N: 40, Run: c16Small},
 				{Name: "fd-chunk-boundaries", N: 9 * c.Pick(200, 20000), Run: c16Chunks},
 				{Name: "fd-keyzoo", N: c.Pick(10000, 1500000), Run: c16Zoo},
